@@ -1446,7 +1446,7 @@ class Container:
 
         new_volume = self.volume + Unit.convert(solvent, f"{required_umoles} umol", config.volume_storage_unit)
 
-        if new_volume > self.max_volume:
+        if round(new_volume, config.internal_precision) > self.max_volume:
             raise ValueError("Dilute solution will not fit in container.")
 
         if name:
